@@ -36,7 +36,7 @@ func runC11(c *Ctx) {
 		},
 		ReadNeedsW: true,
 	}, "dht/internal/net")
-	c.Check("accesses", 0, n >= 20, "the exchange fields are accessed in at least 20 places", "found "+itoa(n))
+	c.Check("accesses", 0, n >= 10, "the exchange fields are accessed in at least 10 places", "found "+itoa(n))
 	for _, name := range []string{pmsFn + "SendRequest", pmsFn + "SendMessage", pmsFn + "prepOrInvalidate"} {
 		checkNoBadUnlock(c, c.Fn(name), nil)
 	}
@@ -64,7 +64,7 @@ func runC11(c *Ctx) {
 		preps, _ := cf.CallLocs(pmsFn + "prep")
 		retryAssigns := assignsTo(f, func(l ast.Expr) bool {
 			id, ok := l.(*ast.Ident)
-			return ok && id.Name == "retry"
+			return ok && eng.NameOf(id) == "retry"
 		})
 		var retryTrue []eng.Loc
 		var retryObj eng.Object
@@ -127,7 +127,7 @@ func runC11(c *Ctx) {
 					inPrep := f.Name == pmsFn+"prep"
 					g1, _ := cf.Guarded(cf.LocOf(as), func(ft eng.Fact) bool {
 						o, truth, isB := ft.BoolVar()
-						return isB && !truth && o != nil && o.Name() == "invalid" && eng.IsField(info, ft.Expr, pmsT+".invalid")
+						return isB && !truth && o != nil && eng.VarName(o) == "invalid" && eng.IsField(info, ft.Expr, pmsT+".invalid")
 					})
 					g2, _ := cf.Guarded(cf.LocOf(as), func(ft eng.Fact) bool {
 						x, isNilF, ok := ft.NilFact()
@@ -143,7 +143,7 @@ func runC11(c *Ctx) {
 		// strmap under smlk
 		n := checkLockSpec(c, &lockSpec{Lock: msiT + ".smlk", Fields: []string{msiT + ".strmap"}, ReadNeedsW: true,
 			Exempt: map[string]string{"dht/internal/net.NewMessageSenderImpl": "constructor"}}, "dht/internal/net")
-		c.Check("strmap accesses", 0, n >= 5, "the sender map is accessed in at least 5 places", "found "+itoa(n))
+		c.Check("strmap accesses", 0, n >= 3, "the sender map is accessed in at least 3 places", "found "+itoa(n))
 		// creation only when the map has none; lookup and insert in one critical section
 		f := c.Fn(msiFn + "messageSenderForPeer")
 		cf := f.CFG()
